@@ -49,13 +49,16 @@ for k in (0, 1, 2):
 for nm in ("find_numbers_percent", "find_total_from_percent", "number_calc", "calc_percent", "convert_money", "money_money", "money_number"):
     add(H("REPLAY", "m_replay_" + nm, "verif_k::c05::m_replay_" + nm, "", kani=False))
 
-for nm in ("time_calc", "time_with_timezone", "unixtime", "to_unixtime", "to_duration_dates", "to_duration_times", "small_date", "parse_timezone", "based_calc", "program"):
+for nm in ("time_calc", "time_with_timezone", "unixtime", "to_unixtime", "to_duration_dates", "to_duration_times", "small_date", "parse_timezone", "based_calc", "program", "duration_parse_any", "huge_line"):
     add(H("REPLAY", "m_replay_" + nm, "verif_k::c10::m_replay_" + nm, "", kani=False))
 for nm in ("duration_parse", "as_duration", "duration_calc", "combine_durations", "duration_print", "as_time", "number_print", "number_type_convert"):
     add(H("REPLAY", "m_replay_" + nm, "verif_k::c10::m_replay_" + nm, "", kani=False))
 add(H("REPLAY", "m_replay_expression", "verif_k::c02::m_replay_expression", "", kani=False))
 add(H("REPLAY", "m_probe_all", "verif_k::c10::m_probe_all", "", kani=False))
+add(H("REPLAY", "m_replay_unit_calc", "verif_k::c12::m_replay_unit_calc", "", kani=False))
 add(H("REPLAY", "d_dump_units", "verif_k::c12::d_dump_units", "", kani=False))
+add(H("REPLAY", "k_replay_registration", "verif_k::c04::k_replay_registration", "", kani=False))
+add(H("REPLAY", "k_replay_api_rule", "verif_k::c04::k_replay_api_rule", "", kani=False))
 add(H("REPLAY", "k_replay_session_reuse", "verif_k::c04::k_replay_session_reuse", "", kani=False))
 
 # ----------------------------------------------------------------------------- driver self tests
@@ -110,3 +113,22 @@ add(H("C10", "c10_chrono_model_timedelta", "verif_k::c09::chrono_model_timedelta
       about="engine M's model of TimeDelta::{seconds,minutes,hours,days,weeks}, num_seconds and + equals chrono for |n| <= 10^9"))
 add(H("C09", "c09_add_months_years", "verif_k::c09::date_add_months", "2", unwindset=(MEMCMP,), timeout=1200,
       about="DateItem + (Y years M months as 365Y+30M days), Y <= 2, M <= 11, day <= 28, landing month not December-aligned: day kept, month index moved by 12Y+M; all dates of years 1..9996"))
+
+# ----------------------------------------------------------------------------- C09 month arithmetic: strict sub-region + known-defect regions
+add(H("C09", "c09_sub_months_years", "verif_k::c09::date_sub_months", "2", unwindset=(MEMCMP,), timeout=1200,
+      about="DateItem - (Y years M months), Y <= 2, M <= 11, day <= 28, no month borrow (month - M >= 1): day kept, month index moved back by 12Y+M"))
+add(H("C09", "c09_known_add_december", "verif_k::c09::date_add_months_december", "", unwindset=(MEMCMP,), timeout=1200,
+      expect="finding:C09-add-months-december", finding_match=("date_add_months_december", "from_ymd", "invalid or out-of-range date", "expect_failed", "chrono"),
+      about="known defect region: date + M months landing on December (month + M multiple of 12)"))
+add(H("C09", "c09_known_add_day_overflow", "verif_k::c09::date_add_months_day_overflow", "", unwindset=(MEMCMP,), timeout=1200,
+      expect="finding:C09-add-months-day-overflow", finding_match=("from_ymd", "invalid or out-of-range date", "expect_failed", "chrono"),
+      about="known defect region: date + M months from day 29..31 into a shorter month"))
+add(H("C09", "c09_known_sub_borrow", "verif_k::c09::date_sub_months_borrow", "", unwindset=(MEMCMP,), timeout=1200,
+      expect="finding:C09-sub-months-borrow", finding_match=("date_sub_months_borrow", "from_ymd", "invalid or out-of-range date", "expect_failed", "chrono"),
+      about="known defect region: date - M months across a year boundary"))
+add(H("C09", "c09_known_days_ge30", "verif_k::c09::date_days_30_to_59", "", unwindset=(MEMCMP,), timeout=1200,
+      expect="finding:C09-days-reread-as-months", finding_match=("date_days_30_to_59",),
+      about="known defect region: date + n days for 30 <= n < 60 is re-read as one 30-day month plus n-30 days"))
+add(H("C09", "c09_known_huge_years", "verif_k::c09::date_add_huge_years", "", unwindset=(MEMCMP,), timeout=1200,
+      expect="finding:C09-huge-years-panic", finding_match=("from_ymd", "invalid or out-of-range date", "expect_failed", "chrono", "overflow"),
+      about="known defect region: date + Y years with Y beyond chrono's year range (262143..400000)"))
